@@ -42,14 +42,16 @@ PROP = "C17"
 RULE = (
     "Hypothesis draws 1-3 data sets (formatter raw/json/quicklogger; selection = ALL or a subset of 5 core message "
     "types; continuous or 30 s subdivision), a history of update(msg|None) with clock steps dt in {0,1,16,31} s "
-    "(flush period 15 s, subdivision 30 s, both read from the code), pause/resume, a final stop, and a schedule "
-    "tape; the real DataCollection/DataSet/formatters run under a cooperative scheduler that owns every "
+    "(flush period 15 s, subdivision 30 s, both read from the code), pause/resume, restart (stop, metadata update, "
+    "start of the next recording of the same collection), a final stop, and a schedule tape; the real DataCollection/DataSet/formatters run under a cooperative scheduler that owns every "
     "Event/Thread operation of the recording and the writer thread, with a virtual clock. After stop()+close() the "
     "files of each data set are read back in subdivision order (raw: frame parser; json: Message.from_json per "
     "line; quicklogger: QLReader.load) and compared with the selected messages handed over while recording and not "
-    "paused. Additionally every schedule of small histories is enumerated depth-first (quick: 6 fixed histories; "
-    "thorough: every history of <=4 updates with <=2 flush deadlines over a one-data-set configuration, <=4096 "
-    "schedules each; counters dfs-histories-complete / dfs-schedules). Non-trivial = a run with >=2 completed "
+    "paused, per recording. Additionally every schedule of small histories is enumerated depth-first (quick: 9 fixed "
+    "histories plus 32 Hypothesis-drawn histories with two flush deadlines, <=1200 schedules each; thorough: also "
+    "every history of <=4 updates with <=2 flush deadlines, with and without one pause/resume pair, over a "
+    "raw+json+quicklogger collection, continuous and subdivided, <=4096 schedules each; counters "
+    "dfs-histories-complete / dfs-histories-truncated / dfs-schedules). Non-trivial = a run with >=2 completed "
     "writer cycles in which the writer was preempted between two of its synchronisation operations; distinct = "
     "(formatter set, #cycles, per-cycle preemption pattern, pause present, subdivision present, #subdivisions "
     "class, timeouts seen)."
@@ -740,10 +742,11 @@ def run(ctx: RunContext) -> int:
     limit = 1200 if ctx.quick else 4096
     work = [(d, h, limit) for d, h in FIXED_DFS]
     if not ctx.quick:
-        for fmt in FORMATTERS:
-            for sub in (0, SUBDIV):
-                for h in small_histories(4):
-                    work.append(([{"fmt": fmt, "types": "ALL", "subdiv": sub}], h, limit))
+        for sub in (0, SUBDIV):
+            cfg = [{"fmt": f, "types": "ALL", "subdiv": sub} for f in FORMATTERS]
+            for h in small_histories(4):
+                work.append((cfg, h, limit))
+        work.sort(key=lambda w: -len(w[1]))  # long histories first, so the shards end together
     slices = [work[i::16] for i in range(16)]
     n_dfs = ctx.scale(2, 40)
     res = run_shards(shard, [(derive_seed(ctx.seed, i), n, max_len, max_tape, slices[i], n_dfs, limit)
